@@ -143,6 +143,10 @@ func runP2(c *p2Case, r *core.Rec, cl p2Clauses) *p2Run {
 				r.Violatef("repair-failed-within-capacity:"+errClass(o.RepairErr), "K=%d unfindable slices, N=%d intact recovery blocks (exponents %v), system non-singular, but Repair returned: %v", t.K, t.N, t.Exps, o.RepairErr)
 			}
 		}
+		if t.AllIntact && o.RepairPanic == nil && o.RepairErr != nil {
+			// nothing is damaged: k = 0 whatever the content looks like (an aligned scan of an intact file finds every slice)
+			r.Violatef("repair-failed-on-intact-set:"+errClass(o.RepairErr), "every protected file is present and byte-identical, but Repair returned: %v", o.RepairErr)
+		}
 		if t.K > 0 || !t.AllIntact {
 			if len(o.RepairedPaths) > 0 {
 				r.NontrivialCase()
